@@ -36,4 +36,4 @@ LEVEL_NOTE = ("Trusted: Lean kernel, axioms propext/Classical.choice/Quot.sound;
               "gj_solve itself is property C13), the tie runs the real gj_solve model bit-exactly; LinkedListNNPS / serial "
               "cython backend only; histories respect the documented contract (same array names/order on rebinding, "
               "update() after in-place changes).")
-TIMEOUT = {'quick': 1800, 'thorough': 2 * 3600}
+TIMEOUT = {'quick': 3600, 'thorough': 4 * 3600}
